@@ -107,13 +107,10 @@ func runC11(c *Ctx) {
 	}
 
 	// ---------- R2 ----------
-	var readNext *ssa.Function
-	eachInstrG(c.P, rsScan, func(_ *ssa.BasicBlock, in ssa.Instruction) {
-		if ci, ok := in.(ssa.CallInstruction); ok {
-			if cal := ci.Common().StaticCallee(); cal != nil && c.P.IsLibFunc(cal) && !c.P.IsNewHelper(cal) && cal.Signature.Recv() != nil && cal.Signature.Results().Len() == 3 {
-				readNext = cal
-			}
-		}
+	// the line reader: the method Scan gets (line, index, more) from - of the scanner, or of a
+	// small type of its own the reader and the position were moved into
+	readNext := c.P.ResolveRole(rsScan, func(cal *ssa.Function) bool {
+		return cal.Signature.Recv() != nil && cal.Signature.Results().Len() == 3
 	})
 	if readNext == nil {
 		c.Fail("C11.R2", "anchor:line reader of the scanner", rsScan.Pos(), "unresolved anchor: Scan calls no method returning (string, int, error)")
@@ -124,13 +121,26 @@ func runC11(c *Ctx) {
 		s := g.Eval(readNext)
 		u := g.U
 		recv := g.ParamExprs(readNext)[0]
-		pos0 := u.Field(recv, "currentPos", nil)
+		// the position and the reader are fields of the receiver: the integer field the method
+		// stores to, and the field the bufio read is called on
+		posField, readerField := "currentPos", "reader"
+		var ownerT *types.Named
+		if pt, ok := readNext.Signature.Recv().Type().(*types.Pointer); ok {
+			ownerT, _ = pt.Elem().(*types.Named)
+		}
 		var read *E
 		for _, ef := range s.Effects {
 			if ef.Kind == "call" && strings.HasPrefix(ef.Call.Aux, "(*bufio.Reader).Read") {
 				read = ef.Call
+				if len(read.Args) > 0 && read.Args[0].Op == "field" && read.Args[0].Args[0] == recv {
+					readerField = read.Args[0].Aux
+				}
+			}
+			if ef.Kind == "store" && ef.Addr.Op == "faddr" && len(ef.Addr.Args) > 0 && ef.Addr.Args[0] == recv && ef.Val.Typ != nil && isIntT(ef.Val.Typ) {
+				posField = ef.Addr.Aux
 			}
 		}
+		pos0 := u.Field(recv, posField, nil)
 		bad := ""
 		if read == nil {
 			bad = "UNDECIDED: no bufio read"
@@ -138,7 +148,7 @@ func runC11(c *Ctx) {
 			bytes := u.mk("extract", "0", nil, read)
 			okStore, okRet := false, false
 			for _, ef := range s.Effects {
-				if ef.Kind == "store" && ef.Addr.Op == "faddr" && ef.Addr.Aux == "currentPos" {
+				if ef.Kind == "store" && ef.Addr.Op == "faddr" && ef.Addr.Aux == posField && len(ef.Addr.Args) > 0 && ef.Addr.Args[0] == recv {
 					L := NewLin(u)
 					want := L.linearize(u.Bin(token.ADD, pos0, u.Len(bytes), types.Typ[types.Int]))
 					got := L.linearize(ef.Val)
@@ -175,16 +185,18 @@ func runC11(c *Ctx) {
 			eachInstr(fn, func(_ *ssa.BasicBlock, in ssa.Instruction) {
 				if cl, ok := in.(*ssa.Call); ok && len(cl.Call.Args) > 0 {
 					if ld, ok := cl.Call.Args[0].(*ssa.UnOp); ok && ld.Op == token.MUL {
-						if n, f, ok := fieldOf(ld.X); ok && f == "reader" && namedIs(n, "filterlist", "RuleScanner") {
+						if n, f, ok := fieldOf(ld.X); ok && f == readerField && n != nil && n == ownerT {
 							bad = c.P.Pos(cl.Pos()) + ": " + shortFn(fn) + " also reads from the scanner's reader: the position no longer counts every byte consumed"
 						}
 					}
 				}
 			})
 		}
-		for _, w := range fieldWrites(c.P, "filterlist", "RuleScanner", "currentPos") {
-			if w.Fn != readNext {
-				bad = c.P.Pos(w.Instr.Pos()) + ": " + shortFn(w.Fn) + " writes the scanner position"
+		if ownerT != nil {
+			for _, w := range fieldWrites(c.P, "filterlist", ownerT.Obj().Name(), posField) {
+				if w.Fn != readNext {
+					bad = c.P.Pos(w.Instr.Pos()) + ": " + shortFn(w.Fn) + " writes the scanner position"
+				}
 			}
 		}
 		c.Check(bad == "", "C11.R2", "only the line reader reads from RuleScanner.reader and writes currentPos", readNext.Pos(), "who-may-call / who-may-write over the library", bad)
